@@ -118,6 +118,9 @@ func panicSite() string {
 		if strings.HasSuffix(f.fn, ".assert") || strings.HasSuffix(f.fn, ".unreachable") {
 			continue // assertion helpers: the caller is the site
 		}
+		if leafFrame(f.fn) && i+1 < len(all) && strings.HasPrefix(all[i+1].fn, modPrefix) {
+			continue // position/constant helpers of the AST: the caller is the site
+		}
 		if strings.HasPrefix(f.fn, modPrefix) && !strings.Contains(f.fn, "zz_verif") {
 			file := f.file
 			if j := strings.Index(file, "/internal/"); j >= 0 {
@@ -129,6 +132,16 @@ func panicSite() string {
 		}
 	}
 	return "?:0:?"
+}
+
+// leafFrame: accessor packages whose panics (nil node, empty list) are caused by their caller
+func leafFrame(fn string) bool {
+	for _, p := range []string{"internal/ast.", "internal/token.", "internal/constant.", "internal/wat/token.", "internal/wat/ast.", "internal/native/token.", "internal/native/ast."} {
+		if strings.HasPrefix(fn, modPrefix+p) {
+			return true
+		}
+	}
+	return false
 }
 
 func guarded(f func() result) (r result) {
